@@ -10,6 +10,7 @@ package tacquito
 import (
 	"fmt"
 	"sync"
+	"sync/atomic"
 
 	"github.com/prometheus/client_golang/prometheus"
 )
@@ -120,19 +121,25 @@ func (s *sessions) close() {
 // a counter that can be used in Serve()
 type waitGroup struct {
 	sync.WaitGroup
-	active uint
+	// active is updated by the accept loop and by every connection goroutine, use count()
+	active int64
 }
 
 // Add adds to WaitGroup and increments the count
 func (w *waitGroup) Add(delta int) {
 	waitgroupActive.Inc()
 	w.WaitGroup.Add(delta)
-	w.active++
+	atomic.AddInt64(&w.active, int64(delta))
 }
 
 // Done decrements WaitGroup and the counter
 func (w *waitGroup) Done() {
 	waitgroupActive.Dec()
 	w.WaitGroup.Done()
-	w.active--
+	atomic.AddInt64(&w.active, -1)
+}
+
+// count returns the number of routines that have not called Done yet
+func (w *waitGroup) count() int64 {
+	return atomic.LoadInt64(&w.active)
 }
